@@ -345,6 +345,40 @@ def _task_histories(task):
     return t
 
 
+def _task_wide_pairs(task):
+    """Kernel E-hist across widths beyond a single packet: every ordered pair of reads over positions 0..7 and widths on both sides of 2**16 and
+    2**17 bits (combined segment groups), each pair on a fresh object, all pairs in one process - whatever the library keeps between reads
+    (on the object or in the module) must not let one shape answer for another."""
+    from space_packet_parser.packets import RawPacketData as RPD
+    t = Tally()
+    with case_alarm(900):
+        buf = bytes((i * 89 + 0xB5) & 0xFF for i in range(16400))
+        bits = _bits(buf)
+        ops = [(p, n) for p in range(8) for n in (1, 5, 8, 16, 65535, 65536, 65537, 65541, 65544, 65552, 131072, 131077)]
+        want = {op: int(bits[op[0]:op[0] + op[1]], 2) for op in ops}
+        for ai in task["firsts"]:
+            for b in ops:
+                hist = (ops[ai], b)
+                r = RPD(buf)
+                for step, (pp, n) in enumerate(hist):
+                    r.pos = pp
+                    try:
+                        got = r.read_as_int(n)
+                    except Exception as e:  # noqa: BLE001
+                        got = f"raised:{type(e).__name__}"
+                    t.evals += 1
+                    if got != want[(pp, n)] or r.pos != pp + n:
+                        t.violation({"kind": "history-read-mismatch", "read": "int", "step": step, "wide": True},
+                                    {"wide_pair": [list(h) for h in hist], "failing_step": step},
+                                    observed={"pos_after": r.pos, "value_bits": got.bit_length() if isinstance(got, int) else got},
+                                    note="a read of a reused shape differs from the same read computed from the bits")
+                        break
+                t.traces += 1
+        t.nontrivial += len(task["firsts"])
+        t.outcomes["wide-pair-history"] += 1
+    return t
+
+
 def cold_start_probe():
     """Subprocess entry (fresh interpreter): for every shape (p % 8, n) the FIRST read of that shape in the process is one that runs past the
     end of a too-short buffer (it may fail: not judged); the next read of the same shape is in range and must be correct.  Whatever the library
@@ -489,6 +523,7 @@ def run(ctx):
     if not ctx.quick:
         htasks += [{"lengths": [3], "firsts": [f], "depth": 4} for f in range(len(_ops_for(24)))]
     tally.merge(fan_out(_task_histories, htasks, jobs=ctx.jobs, seed=ctx.seed))
+    tally.merge(fan_out(_task_wide_pairs, [{"firsts": list(range(a, 96, 16))} for a in range(16)], jobs=ctx.jobs, seed=ctx.seed))
     tally.merge(fan_out(_task_threads, [{"first": [a]} for a in range(11)], jobs=ctx.jobs, seed=ctx.seed))
     tally.merge(_task_forms({}))
     _cold_start(tally)
@@ -502,7 +537,7 @@ def run(ctx):
                   "walking-1/walking-0 over every bit for lengths 3..%d; (c) aligned and unaligned reads on 64, 4096, 65542-byte buffers; "
                   f"(d) histories on ONE object: every sequence of {depth} reads over an alphabet of (position, width, kind) with the cursor set freely before each read, "
                   f"buffers of {'3, 8, 16' if ctx.quick else '3, 6, 8, 16, 32 bytes, and every sequence of 4 reads on 3'} bytes, cached header properties touched at varying points; "
-                  "(j) buffers of 70001 and 140000 bytes (longer than any single packet: combined segment groups) read whole and nearly whole at aligned and unaligned positions; (e) in a fresh interpreter: for every shape (pos mod 8 in 0..7, width 1..72, 80, 96, 127, 128) a failing over-read first, then in-range reads of that shape; (k) positions and widths given as numpy integers (whole-byte reads, integer reads within four bytes, a plain read right after); (i) raw packet objects built from bytes, bytearray, memoryview, arrays of 1/2/4/8-byte items, a cast memoryview, a list of ints and another raw packet object, directly and through CCSDSPacket(raw_data=...), every position x 9 widths; (g) every (p, n) of a 3-byte buffer read on a worker thread; (h) kernel E-thread: every ordered pair of 11 reads on two raw packet objects by two threads at once, every interleaving of their accesses to the objects with at most 2 preemptions; (f) in a fresh interpreter: every (position 0..39, width 0..40) first used with an equal float / Fraction / Decimal / bool position and/or width (not judged), then with the integers" % (4 if ctx.quick else 6)),
+                  "(j) buffers of 70001 and 140000 bytes (longer than any single packet: combined segment groups) read whole and nearly whole at aligned and unaligned positions; (e) in a fresh interpreter: for every shape (pos mod 8 in 0..7, width 1..72, 80, 96, 127, 128) a failing over-read first, then in-range reads of that shape; (k) positions and widths given as numpy integers (whole-byte reads, integer reads within four bytes, a plain read right after); (i) raw packet objects built from bytes, bytearray, memoryview, arrays of 1/2/4/8-byte items, a cast memoryview, a list of ints and another raw packet object, directly and through CCSDSPacket(raw_data=...), every position x 9 widths; (g) every (p, n) of a 3-byte buffer read on a worker thread; (h) kernel E-thread: every ordered pair of 11 reads on two raw packet objects by two threads at once, every interleaving of their accesses to the objects with at most 2 preemptions; (l) every ordered pair of reads over positions 0..7 x 12 widths on both sides of 2**16 and 2**17 bits on a 16400-byte buffer; (f) in a fresh interpreter: every (position 0..39, width 0..40) first used with an equal float / Fraction / Decimal / bool position and/or width (not judged), then with the integers" % (4 if ctx.quick else 6)),
         "rule": ("one evaluation = one read (int or bytes) of one (buffer, p, n); distinct non-trivial = distinct small buffers fully "
                  "swept plus distinct (length, p, n) windows swept over the content family"),
     }
@@ -517,7 +552,12 @@ def replay(case):
         for a in range(11):
             t.merge(_task_threads({"first": [a]}))
         return t.violations[0] if t.violations else None
-    if isinstance(case["buf"], dict):
+    if "wide_pair" in case:
+        t = Tally()
+        for a in range(16):
+            t.merge(_task_wide_pairs({"firsts": list(range(a, 96, 16))}))
+        return next((v for v in t.violations if v["case"]["wide_pair"] == case["wide_pair"]), t.violations[0] if t.violations else None)
+    if isinstance(case.get("buf"), dict) or "buf" not in case:
         return None
     buf = bytes.fromhex(case["buf"])
     if case.get("forms"):
@@ -552,6 +592,10 @@ def replay(case):
 
 
 def repro_py(case):
+    if "wide_pair" in case:
+        return ("from space_packet_parser.packets import RawPacketData\nbuf = bytes((i * 89 + 0xB5) & 0xFF for i in range(16400))\n"
+                "bits = ''.join(format(b, '08b') for b in buf)\n"
+                f"for p, n in {case['wide_pair']!r}:\n    r = RawPacketData(buf); r.pos = p\n    assert r.read_as_int(n) == int(bits[p:p + n], 2), (p, n)\n")
     if "history" in case:
         return (f"from space_packet_parser.packets import RawPacketData\nr = RawPacketData(bytes.fromhex({case['buf']!r}))\n"
                 f"for p, n, kind in {case['history']!r}:\n    r.pos = p\n    print(p, n, kind, r.read_as_int(n) if kind == 'int' else r.read_as_bytes(n), r.pos)\n")
